@@ -1360,7 +1360,14 @@ class Pool:
         self.on_grow(n)
 
     def _iterinactive(self):
-        for worker in self._pool:
+        # (a copy: the supervisor appends/removes workers concurrently)
+        for worker in list(self._pool):
+            if worker._popen is None or \
+                    getattr(worker, '_controlled_termination', False):
+                # not started yet, or already told to leave by an earlier
+                # shrink(): dismissing it (again) would lower the target
+                # without removing a worker.
+                continue
             if not self._worker_active(worker):
                 yield worker
 
